@@ -4,6 +4,7 @@ import PeptVerif.Lemmas.AnnotEq
 import PeptVerif.Lemmas.ModDict
 import PeptVerif.Lemmas.DecimalKey
 import PeptVerif.Lemmas.AnnotCanon
+import PeptVerif.Lemmas.ModDictText
 /-!
 # C20 - modification dictionaries and annotation copies reconstruct the same peptide; equality laws
 
@@ -263,6 +264,35 @@ theorem pt_add_get_inverse (a : Annotation) (h : a.internal ≠ some []) :
   ⟨add_get_inverse a true h, add_get_inverse a true h⟩
 
 example : exA.internal ≠ some [] ∧ addModDict (strip exA) (modDict exA) = exA := by decide
+
+/-! ## the same at text level ("reproduces the original string")
+
+With the serializer and parser models of C01 (`Pept.serialize`, `Pept.parse`, `Pept.canon`; `plus` = any `include_plus`
+convention). `stripGetAddStr` / `popAddStr` (Model/SequenceFuncs.lean) are the literal
+`add_mods(strip_mods(s), get_mods(s), append, include_plus)` and `add_mods(*pop_mods(s), include_plus)` on strings. -/
+
+/-- `strip()` + `add_mod_dict(mod_dict())` serializes to the original string - for *every* annotation (an empty internal
+dict and an absent one are written the same way, so no side condition) and both append modes -/
+theorem add_get_inverse_text (plus : Plus) (a : Annotation) (app : Bool) :
+    serialize plus (addModDict (strip a) (modDict a) app) = serialize plus a := serialize_addModDict_strip plus a app
+
+/-- string in, string out: on the text of a canonical annotation (written with any `+` convention) the wrappers give back
+its serialization in the requested convention - in particular the same string for the same convention -/
+theorem pt_add_get_inverse_text (plus plus' : Plus) (app : Bool) (a : Annotation) (hc : canon a = true) :
+    stripGetAddStr plus' app (serialize plus a) = .ok (serialize plus' a) ∧
+    popAddStr plus' (serialize plus a) = .ok (serialize plus' a) ∧
+    stripModsStr (serialize plus a) = .ok a.seq ∧ getModsStr (serialize plus a) = .ok (modDict a) := by
+  refine ⟨stripGetAddStr_serialize plus plus' app a hc, popAddStr_serialize plus plus' a hc, ?_, ?_⟩
+  · simp [stripModsStr, sequenceToAnnotation_serialize plus a hc, stripMods]
+  · simp [getModsStr, sequenceToAnnotation_serialize plus a hc, getMods]
+
+/-- `create_annotation(**a.dict())` writes the same string -/
+theorem create_dict_text (plus : Plus) (a : Annotation) : serialize plus (createAnnotation (dictArgs a)) = serialize plus a := by
+  rw [createAnnotation_dictArgs]
+
+example : canon exA = true ∧
+    serialize (constPlus false) (addModDict (strip exA) (modDict exA)) =
+      "{Glycan:Hex}[Acetyl]-(PE[3])[5]T[1.0][Phospho]^2/2".toList := by decide +kernel
 
 /-- `create_annotation(**a.dict())` is `a` -/
 theorem create_dict (a : Annotation) : createAnnotation (dictArgs a) = a := createAnnotation_dictArgs a
